@@ -16,6 +16,28 @@ var ErrSkip = errors.New("skip: no Go type can hold this value")
 // Bridge converts an abstract value into the Go value of the registered type, using positions only: field i of
 // the struct <-> i-th parameter that is not '#'. Struct tags and FlagIndex() are never consulted.
 func Bridge(r *Registry, v *Val) (reflect.Value, error) {
+	// the same abstract sub-value met again (the caller put one object into two places) becomes the same Go pointer
+	if r.Shared != nil {
+		if gv, ok := r.Shared[v]; ok {
+			return gv, nil
+		}
+	}
+	gv, err := bridge(r, v)
+	if err == nil && r.Shared != nil && gv.Kind() == reflect.Ptr {
+		r.Shared[v] = gv
+	}
+	return gv, err
+}
+
+// BridgeShared is Bridge for values in which one abstract sub-value may occur in several places: every occurrence
+// becomes the same Go pointer (as a caller who resolved a peer once and uses it twice would build it).
+func BridgeShared(r *Registry, v *Val) (reflect.Value, error) {
+	rr := *r
+	rr.Shared = map[*Val]reflect.Value{}
+	return Bridge(&rr, v)
+}
+
+func bridge(r *Registry, v *Val) (reflect.Value, error) {
 	rt, ok := r.GoType(v.Def)
 	if !ok {
 		return reflect.Value{}, fmt.Errorf("%w: %s#%08x not registered", ErrSkip, v.Def.Name, v.Def.ID)
